@@ -1067,6 +1067,45 @@ fn gen_oracle_case(rng: &mut Rng, id: String) -> Case {
     let mut ops = vec![format!("query {} {}", hex(name.as_bytes()), ty)];
     let t0 = *rng.pick(&[0i64, 1, 1_000_000, 77_000_000]);
     match rng.below(10) {
+        6..=7 if rng.chance(1, 3) => {
+            // concurrent queries: the lower slots are freed (result collected / cancelled) while the
+            // query in the highest slot gets no answer: it must still be retransmitted and fail in time
+            let nq = *rng.pick(&[2usize, 2, 3]);
+            let names = ["c.d", "example.org", "host.example.com"];
+            for k in 1..nq {
+                ops.push(format!("query {} {}", hex(names[k - 1].as_bytes()), ty));
+            }
+            ops.push(format!("poll {}", t0));
+            let mut order: Vec<usize> = (0..nq - 1).collect();
+            if rng.chance(1, 2) {
+                order.reverse();
+            }
+            for k in order {
+                if rng.chance(1, 2) {
+                    ops.push(format!("cancel {}", k));
+                } else {
+                    let lab = if k == 0 { labels.clone() } else { labels_of(names[k - 1]) };
+                    let b = build_response(rng, &lab, ty, &server, Viol::None, 4);
+                    ops.push(rsp_line(k, k, &b));
+                    ops.push(format!("get {}", k));
+                }
+                if rng.chance(1, 3) {
+                    ops.push("ppoll 0".into());
+                }
+            }
+            for _ in 0..60 {
+                ops.push("ppoll 0".into());
+            }
+            ops.push(format!("get {}", nq - 1));
+            let mut cfg = base_cfg(rng, &servers, "timing-multi".into());
+            for e in cfg.iter_mut() {
+                if e.0 == "slots" {
+                    e.1 = nq.to_string();
+                }
+            }
+            cfg.push(("track".into(), (nq - 1).to_string()));
+            Case { id, cfg, ops }
+        }
         0..=3 if rng.chance(1, 6) => {
             // two steps: a matching response with a CNAME that is then cut off (settles nothing),
             // followed by a response that repeats the CNAME target as its question
@@ -1257,9 +1296,11 @@ fn oracle_case(c: &Case, fails: &mut Vec<String>, stats: &mut BTreeMap<String, u
             }
             Obs::PollAt(Some(p)) => {
                 if let Some(Obs::Poll { t, txs, .. }) = prev {
-                    if txs.is_empty() && *p <= *t && ora == "timing" {
-                        // an idle poll must be followed by a later deadline, else the schedule spins
-                        *stats.entry("idle_poll_deadline_not_later".into()).or_default() += 1;
+                    if *p <= *t {
+                        // after a poll at t every pending query has both deadlines after t
+                        // (C19_poll_no_spin): a deadline <= t means some query was not dispatched
+                        let _ = txs;
+                        fail("pollat-in-the-past", format!("after the poll at {} us poll_at reports {} us: the schedule cannot advance", t, p));
                     }
                 }
             }
@@ -1299,7 +1340,8 @@ fn oracle_case(c: &Case, fails: &mut Vec<String>, stats: &mut BTreeMap<String, u
         prev = Some(o);
     }
     let _ = last_now;
-    let final_get = obs.iter().rev().find_map(|o| if let Obs::Get(0, g) = o { Some(g.clone()) } else { None });
+    let tk: usize = if ora == "timing-multi" { c.get_i("track", 1) as usize } else { 0 };
+    let final_get = obs.iter().rev().find_map(|o| match o { Obs::Get(k, g) if *k == tk => Some(g.clone()), _ => None });
     // --- scenario-specific expectations
     if let Some(slug) = ora.strip_prefix("clause:") {
         match final_get {
@@ -1330,12 +1372,12 @@ fn oracle_case(c: &Case, fails: &mut Vec<String>, stats: &mut BTreeMap<String, u
             }
             other => fail("matching-answer-unexpected-result", format!("{:?}", other)),
         }
-    } else if ora == "timing" || ora == "timing-upd" {
+    } else if ora == "timing" || ora == "timing-upd" || ora == "timing-multi" {
         let upd = ora == "timing-upd";
         // property text: retransmit with back-off, next server after 10 s, bounded failure
-        let is_mdns = tx_times.get(&0).map(|v| v.iter().any(|(_, d)| d[0] == 0xff || d[0] == 224)).unwrap_or(false);
+        let is_mdns = tx_times.get(&tk).map(|v| v.iter().any(|(_, d)| d[0] == 0xff || d[0] == 224)).unwrap_or(false);
         let nsrv = if is_mdns { 2 } else if upd { maxsrv } else { servers.len() } as i64;
-        let t_first = first_tx.get(&0).copied();
+        let t_first = first_tx.get(&tk).copied();
         match (&final_get, t_first) {
             (Some(GetR::Failed), Some(t1)) => {
                 *stats.entry("timing_failed_in_time".into()).or_default() += 1;
@@ -1363,7 +1405,7 @@ fn oracle_case(c: &Case, fails: &mut Vec<String>, stats: &mut BTreeMap<String, u
             (Some(GetR::Failed), None) => {}
             (other, _) => fail("oracle-scenario-broken", format!("{:?}", other)),
         }
-        if let (Some(v), false) = (tx_times.get(&0), upd) {
+        if let (Some(v), false) = (tx_times.get(&tk), upd) {
             // per destination: gaps at least 1 s and non-decreasing; a new destination no later than 10 s after the first transmission to the previous one
             let mut i = 0;
             let mut prev_first: Option<i64> = None;
